@@ -207,10 +207,10 @@ class HookTransport(so.RecTransport):
         return True
 
 
-@obligation('S4', props=('C09', 'C05'), quick=[dict(chunks=3, event='none'), dict(chunks=3, event='disconnect'), dict(chunks=3, event='disconnect', lose=True), dict(chunks=3, event='newer')],
+@obligation('S4', props=('C09', 'C05', 'C18', 'C20'), quick=[dict(chunks=3, event='none'), dict(chunks=3, event='disconnect'), dict(chunks=3, event='disconnect', lose=True), dict(chunks=3, event='disconnect', observer=True), dict(chunks=3, event='newer')],
             thorough=[dict(chunks=c_, event=e) for c_ in (6, 8) for e in ('none', 'disconnect', 'newer')] + [dict(chunks=6, event='disconnect', lose=True)], stubs=_STUBS + ('snapshot images are blobs of symbolic length',),
             bounds='image length 1..200000 and chunk size 1..70000 symbolic with at most `chunks` data chunks (chunk size larger than the image included); a disconnect or a newer completed snapshot after a symbolic number of sent chunks')
-def S4(inp, chunks, event, lose=False):
+def S4(inp, chunks, event, lose=False, observer=False):
     """chunked snapshot transfer: whatever the chunk size and wherever the transfer is interrupted (disconnect and restart,
     or a newer snapshot completing on the leader), the follower installs only an image equal to one complete leader image,
     never a mixture; afterwards the leader's nextIndex for that follower is that image's index + 1."""
@@ -237,7 +237,14 @@ def S4(inp, chunks, event, lose=False):
     get(lead, 'connectedNodes').add(b)
     get(lead, 'raftNextIndex')[b] = 2
     get(lead, 'raftMatchIndex')[b] = 0
-    get(lead, 'lastResponseTime')[b] = now
+    heard = now - 7
+    if observer:
+        # the lagging peer is a read-only node: no voter, its table entries vanish when it disconnects
+        get(lead, 'otherNodes').discard(b)
+        get(lead, 'otherNodes').add(Node('c')); get(lead, 'raftNextIndex')[Node('c')] = 7; get(lead, 'raftMatchIndex')[Node('c')] = 6; get(lead, 'lastResponseTime')[Node('c')] = now
+        get(lead, 'readonlyNodes').add(b)
+    else:
+        get(lead, 'lastResponseTime')[b] = heard
     installed = []
     real_load = getattr(fol, so.P + 'loadDumpFile')
 
@@ -251,7 +258,7 @@ def S4(inp, chunks, event, lose=False):
 
     def on_hook():
         if event == 'disconnect':
-            getattr(lead, so.P + 'onNodeDisconnected')(b)
+            getattr(lead, so.P + ('onReadonlyNodeDisconnected' if observer else 'onNodeDisconnected'))(b)
         else:
             # a newer snapshot completes on the leader: new image, transmissions reset (what checkSerializing does)
             ser._Serializer__inMemorySerializedData = img2
@@ -261,6 +268,7 @@ def S4(inp, chunks, event, lose=False):
     exc = None
     delivered = 0
     fdelivered = 0
+    sent_is_not_heard = True
     for rnd in range(6):
         _, exc = guard(getattr(lead, so.P + 'sendAppendEntries'))
         if exc is not None:
@@ -277,7 +285,10 @@ def S4(inp, chunks, event, lose=False):
             # lose=True: the chunk that was being sent when the link broke never arrives
             for nd, m in msgs[:max(0, (k or 0) - (delivered - len(msgs)) - (1 if lose else 0))]:
                 _, exc = guard(getattr(fol, so.P + 'onMessageReceived'), Node('a'), m)
-            getattr(lead, so.P + 'onNodeConnected')(b)
+            getattr(lead, so.P + ('onReadonlyNodeConnected' if observer else 'onNodeConnected'))(b)
+        # sending is not hearing: what the leader sent must not count as a sign of life of the receiver
+        if rnd == 0 and not observer:
+            sent_is_not_heard = Eq(get(lead, 'lastResponseTime')[b], heard)
         # the follower's answers travel back
         for nd, m in ftr.sent[fdelivered:]:
             if exc is None:
@@ -286,6 +297,8 @@ def S4(inp, chunks, event, lose=False):
         if exc is not None or installed:
             break
     cl = {'no_exception': exc is None}
+    if not observer and exc is None:
+        cl['sending_chunks_is_not_hearing_from_the_follower'] = sent_is_not_heard
     cl['installed_exactly_once'] = len(installed) == 1
     if installed:
         img = Blob.coerce(installed[0])
